@@ -100,6 +100,24 @@ def judge(ck, sc, res):
                 return
 
 
+def unbounded(ck):
+    """NoStall for ANY number of data messages: AgentConnInd.tla (counters instead of sequences) as an inductive invariant,
+    discharged by Apalache in seconds. A tool failure is a note, never a verdict; a refuted obligation of the repaired protocol
+    means the specification's argument is broken (exit 2); the code as found (capacity 0) must be refuted."""
+    import apalache
+    for what, init, inv, length in (("Init => IndInv", "InitOne", "IndInv", 0), ("IndInv /\\ Next => IndInv'", "IndInitOne", "IndInv", 1),
+                                    ("IndInv => NoStall", "IndInitOne", "NoStall", 0)):
+        outcome, detail, wall = apalache.check("AgentConnInd", init, inv, length, timeout=300)
+        if outcome == "refuted":
+            raise lib.Infra("Apalache refutes %s in AgentConnInd.tla:\n%s" % (what, detail))
+        ck.notes.append("Apalache (any number of messages): %s: %s in %.0f s" % (what, "proved" if outcome == "ok" else "NOT ESTABLISHED (tool unavailable or timed out)", wall))
+    outcome, detail, wall = apalache.check("AgentConnInd", "IndInitZero", "IndInv", 1, timeout=300)
+    if outcome == "ok":
+        raise lib.Infra("AgentConnInd: the inductive step also holds for an unbuffered notification channel - the invariant is vacuous")
+    ck.notes.append("Apalache: with an unbuffered notification channel (the code as found) the inductive step is %s" % (
+        "refuted, as it must be" if outcome == "refuted" else "not checked (tool unavailable)"))
+
+
 def run(tier, lab):
     ck = lib.Check(PROP, tier, "model_checking")
     rng = random.Random(lib.seed())
@@ -182,6 +200,7 @@ def run(tier, lab):
     rb = lib.tlc("MC_AgentConn", timeout=200, constants={"MCCap": "0", "MCRecheck": "FALSE", "MCChunks": "3"}, want_scn=False)
     if rb.violated != "NoStall":
         raise lib.Infra("an unbuffered notification channel does not violate NoStall in AgentConn (got %s)" % rb.violated)
+    unbounded(ck)
     for sched in {json.dumps(x["arrivals"]): x["arrivals"] for x in ra.scn}.values():
         msgs, at, gens = [{"m": "hello", "k": 1, "n": 0}], [""], []
         for a in sched:
